@@ -39,11 +39,12 @@ end
 /-- the payload of a shared allocation is written by a serializer path that emits the pending anchor -/
 def takesRoot : Val → Bool
   | .leaf k => k.takesAnchor
-  | .node takes _ _ => takes
+  | .node _ _ => true
   | .strong .. => false
   | .weak .. => false
 
-/-- every live allocation's payload takes its anchor (structs, maps, sequences, one-line scalars) -/
+/-- every live allocation's payload takes its anchor: anything but a block scalar (the one serializer path
+that still ignores the pending anchor) or another wrapper (which shares the node and the id) -/
 def AnchorTaking (H : Heap) : Prop := ∀ p v, H.lookup p = some v → takesRoot v = true
 
 mutual
@@ -53,6 +54,7 @@ def pointerFree : RVal → Bool
   | .node _ items => pointerFreeList items
   | .strong .. => false
   | .weak .. => false
+  | .weakNull _ => false
 def pointerFreeList : List RVal → Bool
   | [] => true
   | x :: xs => pointerFree x && pointerFreeList xs
@@ -85,7 +87,7 @@ mutual
 /-- a wrapper-free Rust value -/
 def plainV : Val → Bool
   | .leaf _ => true
-  | .node _ _ items => plainVList items
+  | .node _ items => plainVList items
   | .strong .. => false
   | .weak .. => false
 def plainVList : List Val → Bool
@@ -97,7 +99,7 @@ mutual
 /-- the rebuilt form of a wrapper-free value: the same tree -/
 def plainOf : Val → RVal
   | .leaf k => .leaf k
-  | .node _ isMap items => .node isMap (plainOfList items)
+  | .node isMap items => .node isMap (plainOfList items)
   | .strong .. => .leaf .null
   | .weak .. => .leaf .null
 def plainOfList : List Val → List RVal
@@ -107,12 +109,12 @@ end
 
 mutual
 /-- `RelV ρ v rv`: the rebuilt value `rv` is the original value `v` with every pointer `p` replaced by
-`ρ p`; a dangling weak edge (no heap cell) must come back as null. -/
+`ρ p`; a dangling weak edge (no heap cell) must come back as a dangling weak. -/
 def RelV (H : Heap) (ρ : Ptr → Option Ptr) : Val → RVal → Prop
   | .leaf k, rv => rv = .leaf k
-  | .node _ isMap items, rv => ∃ rvs, rv = .node isMap rvs ∧ RelVList H ρ items rvs
+  | .node isMap items, rv => ∃ rvs, rv = .node isMap rvs ∧ RelVList H ρ items rvs
   | .strong k _ p, rv => ∃ q, ρ p = some q ∧ rv = .strong k q
-  | .weak k _ p, rv => if H.lookup p = none then rv = .leaf .null else ∃ q, ρ p = some q ∧ rv = .weak k q
+  | .weak k _ p, rv => if H.lookup p = none then rv = .weakNull k else ∃ q, ρ p = some q ∧ rv = .weak k q
 def RelVList (H : Heap) (ρ : Ptr → Option Ptr) : List Val → List RVal → Prop
   | [], rvs => rvs = []
   | x :: xs, rvs => ∃ r rs, rvs = r :: rs ∧ RelV H ρ x r ∧ RelVList H ρ xs rs
@@ -128,14 +130,14 @@ def SameSharing (H : Heap) (v : Val) (s : DeSt) (rv : RVal) : Prop :=
     (∀ p1 p2 q, ρ p1 = some q → ρ p2 = some q → p1 = p2) ∧
     (∀ p q, ρ p = some q → ∃ payload c, H.lookup p = some payload ∧ s.cell q = some c ∧ RelV H ρ payload c)
 
-/-- in a record: every live weak field comes after a strong field with the same pointer, and no weak
-field is dangling (`seen` = pointers of the strong fields so far) -/
-def weaksAfterStrong (seen : List Ptr) : List Val → Bool
+/-- in a record: every live weak field comes after a strong field with the same pointer (`seen` =
+pointers of the strong fields so far); dangling weak fields may be anywhere -/
+def weaksAfterStrong (H : Heap) (seen : List Ptr) : List Val → Bool
   | [] => true
-  | .weak _ _ p :: rest => seen.contains p && weaksAfterStrong seen rest
-  | .strong _ _ p :: rest => weaksAfterStrong (p :: seen) rest
-  | .leaf _ :: rest => weaksAfterStrong seen rest
-  | .node _ _ _ :: rest => weaksAfterStrong seen rest
+  | .weak _ _ p :: rest => ((H.lookup p).isNone || seen.contains p) && weaksAfterStrong H seen rest
+  | .strong _ _ p :: rest => weaksAfterStrong H (p :: seen) rest
+  | .leaf _ :: rest => weaksAfterStrong H seen rest
+  | .node _ _ :: rest => weaksAfterStrong H seen rest
 
 end SaphyrVerif.Spec.Anchors
 
@@ -151,6 +153,7 @@ def RVal.code : RVal → List Nat
   | .node _ items => 3 :: items.length :: RVal.codeList items
   | .strong k q => [4, k.code, q]
   | .weak k q => [5, k.code, q]
+  | .weakNull k => [6, k.code]
 def RVal.codeList : List RVal → List Nat
   | [] => []
   | x :: xs => RVal.code x ++ RVal.codeList xs
